@@ -85,6 +85,14 @@ def gadget_instances(tier):
             if quick and len(pr) > 24:
                 pr = pr[:: max(1, len(pr) // 24)]
             insts.append({"gadget": "integer", "ub": ub, "cub": cub, "xub": ub, "probes": pr, "enumerate": ub <= 3})
+    # fractional bounds (in tenths): the product may stay below a non-integral ub while the integer factor exceeds floor(ub);
+    # probes only (values are tenths, `den` = 10)
+    for ub10, xub in ((35, 4), (79, 8), (5, 1), (15, 2), (70, 7)):
+        # (the continuous factor stays within [0, ub] as well: the helper is built from the binary helper, which documents
+        #  lb <= continuous_var <= ub)
+        cub10 = min(10, ub10)
+        pr = [{"x": x, "c": c10} for x in range(0, xub + 1) for c10 in (0, 4, 8, 9, 10) if x * c10 <= ub10 and c10 <= cub10]
+        insts.append({"gadget": "integer", "ub": ub10, "cub": cub10, "xub": xub, "den": 10, "probes": pr, "enumerate": False})
     pws = [([[0, 2], [3, 5]], [7, 9]), ([[0, 0], [1, 3], [4, 6]], [2, 0, 5]), ([[1, 2], [4, 6]], [3, 1]),
            ([[0, 1], [2, 3]], [0, 40]), ([[0, 6]], [4]), ([[0, 1], [2, 2], [3, 6]], [1, 2, 3])]
     for ranges, consts in pws:
@@ -119,7 +127,7 @@ def run(tier, seed):
     hrecs = [r for r in recs if "ops" in r]
     grecs = [r for r in recs if "gadget" in r]
     for g in grecs:
-        for key, dflt in (("ub", 0), ("cub", 0), ("xub", 0), ("ranges", []), ("constants", [])):
+        for key, dflt in (("ub", 0), ("cub", 0), ("xub", 0), ("ranges", []), ("constants", []), ("den", 1)):
             g.setdefault(key, dflt)
     # histories -> Trace_Wrapper
     sc = vlib.scratch_dir()
